@@ -52,9 +52,9 @@ const (
 )
 
 var calleeNames = map[int]string{
-	calLogQuery: "(*Server).logQuery", calUpdateStats: "(*Server).updateStats",
+	calLogQuery: "logQuery", calUpdateStats: "updateStats",
 	calQLogAdd: "querylog.QueryLog.Add", calStatsUpdate: "stats.Interface.Update",
-	calShouldLog: "(*Server).shouldLog", calShouldCountStat: "(*Server).shouldCountStat",
+	calShouldLog: "shouldLog", calShouldCountStat: "shouldCountStat",
 	calQLogShouldLog: "querylog.QueryLog.ShouldLog", calStatsShouldCount: "stats.Interface.ShouldCount",
 	calAnonymize: "s.anonymizer.Load()(ip)",
 }
@@ -119,14 +119,15 @@ func (x *extractor) calleeOf(ce *ast.CallExpr) int {
 	if f == nil {
 		return 0
 	}
+	// The four helpers are methods of *Server or package-level functions.
 	switch f.FullName() {
-	case "(*" + pkgPath + ".Server).logQuery":
+	case "(*" + pkgPath + ".Server).logQuery", pkgPath + ".logQuery":
 		return calLogQuery
-	case "(*" + pkgPath + ".Server).updateStats":
+	case "(*" + pkgPath + ".Server).updateStats", pkgPath + ".updateStats":
 		return calUpdateStats
-	case "(*" + pkgPath + ".Server).shouldLog":
+	case "(*" + pkgPath + ".Server).shouldLog", pkgPath + ".shouldLog":
 		return calShouldLog
-	case "(*" + pkgPath + ".Server).shouldCountStat":
+	case "(*" + pkgPath + ".Server).shouldCountStat", pkgPath + ".shouldCountStat":
 		return calShouldCountStat
 	case "(" + modPath + "/internal/querylog.QueryLog).Add":
 		return calQLogAdd
@@ -158,31 +159,51 @@ func (x *extractor) funcOf(e ast.Expr) *types.Func {
 	return nil
 }
 
+// isServerOrFunc reports whether fd is a package-level function or a method of
+// Server / *Server.
+func isServerOrFunc(fd *ast.FuncDecl) bool {
+	if fd.Recv == nil {
+		return true
+	}
+	if len(fd.Recv.List) != 1 {
+		return false
+	}
+	t := fd.Recv.List[0].Type
+	if st, ok := t.(*ast.StarExpr); ok {
+		t = st.X
+	}
+
+	return isIdent(t, "Server")
+}
+
 func isIdent(e ast.Expr, name string) bool {
 	id, ok := e.(*ast.Ident)
 
 	return ok && id.Name == name
 }
 
-// argCode says whether the argument the model cares about is the expected
-// variable: 1 yes, 3 no.
+// argCode says whether the variable the model cares about is handed over as an
+// argument (at whatever position: the helpers are methods or functions): 1 yes,
+// 3 no.
 func argCode(callee int, ce *ast.CallExpr) int {
-	want := func(i int, name string) int {
-		if i < len(ce.Args) && isIdent(ce.Args[i], name) {
-			return 1
+	want := func(name string) int {
+		for _, a := range ce.Args {
+			if isIdent(a, name) {
+				return 1
+			}
 		}
 
 		return 3
 	}
 	switch callee {
 	case calLogQuery:
-		return want(1, "ip")
+		return want("ip")
 	case calUpdateStats:
-		return want(1, "ipStr")
+		return want("ipStr")
 	case calShouldLog, calShouldCountStat, calQLogShouldLog, calStatsShouldCount:
-		return want(3, "ids")
+		return want("ids")
 	case calAnonymize:
-		return want(0, "ip")
+		return want("ip")
 	}
 
 	return 1
@@ -205,7 +226,7 @@ func (x *extractor) mentions(e ast.Expr) (found bool) {
 
 func (x *extractor) walkFunc(fd *ast.FuncDecl) {
 	fn := 0
-	if fd.Recv != nil {
+	if isServerOrFunc(fd) {
 		fn = fnCodes[fd.Name.Name]
 	}
 	fset := x.pkg.Fset
@@ -349,7 +370,10 @@ func main() {
 			if !ok || fd.Body == nil {
 				continue
 			}
-			if fd.Recv != nil && fnCodes[fd.Name.Name] != 0 {
+			if isServerOrFunc(fd) && fnCodes[fd.Name.Name] != 0 {
+				if seen[fd.Name.Name] {
+					fatal(pkg.Fset, fd.Pos(), "%s is declared twice (method and function)", fd.Name.Name)
+				}
 				seen[fd.Name.Name] = true
 			}
 			x.walkFunc(fd)
@@ -372,7 +396,7 @@ func main() {
 	}
 	for name := range fnCodes {
 		if !seen[name] {
-			fmt.Fprintf(os.Stderr, "extract c08: %s/stats.go: method (*Server).%s not found\n", pkgPath, name)
+			fmt.Fprintf(os.Stderr, "extract c08: %s/stats.go: neither a method (*Server).%s nor a function %s found\n", pkgPath, name, name)
 			os.Exit(1)
 		}
 	}
